@@ -54,6 +54,8 @@ def run_case(prop: str, root: str, case: dict, known) -> tuple[str, str]:
         for e in edits:
             rel = e["file"]
             p = os.path.join(root, rel)
+            if os.path.exists(os.path.join(tmp, rel)):
+                p = os.path.join(tmp, rel)  # a second edit of the same file builds on the first
             if not os.path.exists(p):
                 return "stale", f"{case['name']}: {rel} missing"
             with open(p, encoding="utf-8") as f:
